@@ -76,6 +76,62 @@ Qed.
 Lemma write_fields_ext e fs r r' f : (forall g, r' g = r g) -> write_fields e fs r' f = write_fields e fs r f.
 Proof. intros H. rewrite !write_fields_spec. destruct (last_binding f fs); [reflexivity|apply H]. Qed.
 
+(* the register-level relation between events (transitive; implies ev_sim_b) *)
+Definition ev_strong (e e' : event) : Prop :=
+  match e, e' with
+  | ELaunch a _ rg lv, ELaunch a' _ rg' lv' => a = a' /\ lv = lv' /\ (forall f, rg f = rg' f)
+  | EAwait a, EAwait a' => a = a'
+  | ECall g n ar, ECall g' n' ar' => g = g' /\ n = n' /\ ar = ar'
+  | EReset a, EReset a' => a = a'
+  | _, _ => False
+  end.
+
+Lemma ev_strong_refl e : ev_strong e e.
+Proof. destruct e; simpl; auto. Qed.
+
+Lemma ev_strong_trans e1 e2 e3 : ev_strong e1 e2 -> ev_strong e2 e3 -> ev_strong e1 e3.
+Proof.
+  destruct e1, e2, e3; simpl; try tauto.
+  - intros [-> [-> H1]] [-> [-> H2]]. repeat split. intros f. rewrite H1. apply H2.
+  - congruence.
+  - intros [-> [-> ->]] [-> [-> ->]]. auto.
+  - congruence.
+Qed.
+
+Lemma ev_strong_sim e e' : ev_strong e e' -> ev_sim_b e e' = true.
+Proof.
+  destruct e, e'; simpl; try tauto.
+  - intros [-> [-> H]]. rewrite Nat.eqb_refl, (list_eqb_refl lv_eqb lv_eqb_refl). simpl.
+    apply forallb_forall. intros f _. rewrite H. apply Z.eqb_refl.
+  - intros ->. apply Nat.eqb_refl.
+  - intros [-> [-> ->]]. rewrite !Nat.eqb_refl, (list_eqb_refl Z.eqb Z.eqb_refl). reflexivity.
+  - intros ->. apply Nat.eqb_refl.
+Qed.
+
+Definition trace_strong (l l' : list event) : Prop := Forall2 ev_strong l l'.
+
+Lemma trace_strong_refl l : trace_strong l l.
+Proof. induction l; constructor; [apply ev_strong_refl|assumption]. Qed.
+
+Lemma trace_strong_trans l1 : forall l2 l3, trace_strong l1 l2 -> trace_strong l2 l3 -> trace_strong l1 l3.
+Proof.
+  induction l1 as [|x l1 IH]; intros l2 l3 H1 H2; inversion H1; subst; inversion H2; subst; constructor.
+  - eapply ev_strong_trans; eassumption.
+  - eapply IH; eassumption.
+Qed.
+
+Lemma trace_strong_sim l : forall l', trace_strong l l' -> trace_sim_b l l' = true.
+Proof.
+  unfold trace_sim_b. induction l as [|x l IH]; intros l' H; inversion H; subst; simpl; [reflexivity|].
+  rewrite (ev_strong_sim _ _ H2). simpl. apply IH. assumption.
+Qed.
+
+Lemma trace_strong_rev l l' : trace_strong l l' -> trace_strong (rev l) (rev l').
+Proof.
+  induction 1 as [|x y l l' Hxy H IH]; simpl; [constructor|].
+  apply Forall2_app; [exact IH|]. constructor; [exact Hxy|constructor].
+Qed.
+
 Section Simp.
 Variable T : val -> astate.
 Variable orc : oracle.
@@ -85,10 +141,10 @@ Variable sel : val -> bool.
    event-wise similar traces *)
 Definition R (m m' : mstate) : Prop :=
   env m' = env m /\ (forall a f, regs m' a f = regs m a f) /\ ncalls m' = ncalls m /\
-  list_eqb ev_sim_b (tr m) (tr m') = true.
+  trace_strong (tr m) (tr m').
 
-Lemma R_refl m : list_eqb ev_sim_b (tr m) (tr m) = true -> R m m.
-Proof. intros H. repeat split; try reflexivity. exact H. Qed.
+Lemma R_refl m : R m m.
+Proof. repeat split; try reflexivity. apply trace_strong_refl. Qed.
 
 Lemma R_set_env m m' e : R m m' -> R (set_env m e) (set_env m' e).
 Proof. intros [He [Hr [Hn Ht]]]. repeat split; simpl; assumption. Qed.
@@ -117,7 +173,7 @@ Lemma R_same_call g ef pu ds ar m m' :
 Proof.
   intros [He [Hr [Hn Ht]]]. simpl. unfold exec_call. rewrite He, Hn. repeat split; simpl.
   - destruct ef; [reflexivity|exact Hr].
-  - rewrite !Nat.eqb_refl. rewrite (list_eqb_refl Z.eqb Z.eqb_refl). simpl. exact Ht.
+  - constructor; [simpl; auto|exact Ht].
 Qed.
 
 Lemma R_same_setup a fs m m' : R m m' -> R (exec_setup a fs m) (exec_setup a fs m').
@@ -131,12 +187,11 @@ Lemma R_same_launch a k st fs m m' :
   R m m' -> R (exec_stmt orc (SLaunch a k st fs) m) (exec_stmt orc (SLaunch a k st fs) m').
 Proof.
   intros [He [Hr [Hn Ht]]]. simpl. unfold emit. repeat split; simpl; try assumption.
-  rewrite He. rewrite Nat.eqb_refl. rewrite (list_eqb_refl lv_eqb lv_eqb_refl). simpl.
-  rewrite Ht. rewrite andb_true_r. apply forallb_forall. intros f _. rewrite Hr. apply Z.eqb_refl.
+  rewrite He. constructor; [|exact Ht]. simpl. repeat split. intros f. symmetry. apply Hr.
 Qed.
 
-Lemma R_same_emit_simple m m' ev : ev_sim_b ev ev = true -> R m m' -> R (emit m ev) (emit m' ev).
-Proof. intros Hev [He [Hr [Hn Ht]]]. unfold emit. repeat split; simpl; try assumption. rewrite Hev, Ht. reflexivity. Qed.
+Lemma R_same_emit_simple m m' ev : R m m' -> R (emit m ev) (emit m' ev).
+Proof. intros [He [Hr [Hn Ht]]]. unfold emit. repeat split; simpl; try assumption. constructor; [apply ev_strong_refl|exact Ht]. Qed.
 
 (* the interesting case: a selected setup loses its redundant pairs *)
 Lemma R_simp_setup a i fs m m' :
@@ -232,8 +287,8 @@ Proof.
   - intros g ef pu ds ar m m' _ HR _. exact (R_same_call g ef pu ds ar m m' HR).
   - exact sim_setup.
   - intros a k st fs m m' _ HR _. exact (R_same_launch a k st fs m m' HR).
-  - intros a k m m' _ HR _. simpl. apply R_same_emit_simple; [simpl; apply Nat.eqb_refl|exact HR].
-  - intros a st m m' _ HR _. simpl. apply R_same_emit_simple; [simpl; apply Nat.eqb_refl|exact HR].
+  - intros a k m m' _ HR _. simpl. apply R_same_emit_simple; exact HR.
+  - intros a st m m' _ HR _. simpl. apply R_same_emit_simple; exact HR.
   - exact sim_for.
   - exact sim_if.
   - intros m m' _ HR _. exact HR.
@@ -243,18 +298,27 @@ Proof.
 Qed.
 
 (* on every run that does not contradict T, dropping T-redundant pairs preserves the trace *)
-Theorem simp_preserves_run p args :
+Theorem simp_preserves_strong p args :
   block_fields_nodup (p_body p) = true -> chk_prog T orc p args = [] ->
-  trace_sim_b (run orc p args) (run orc (simp_prog sel T p) args) = true
+  trace_strong (run orc p args) (run orc (simp_prog sel T p) args)
   /\ (forall a f, regs (final_state orc (simp_prog sel T p) args) a f = regs (final_state orc p args) a f).
 Proof.
   intros Hnd Hc. unfold chk_prog in Hc.
   assert (HR : R (exec_block orc (p_body p) (init_state orc p args))
                  (exec_block orc (simp_block sel T (p_body p)) (init_state orc p args))).
-  { apply sim_block; [exact Hnd| |exact Hc]. apply R_refl. reflexivity. }
+  { apply sim_block; [exact Hnd|apply R_refl|exact Hc]. }
   destruct HR as [_ [Hr [_ Ht]]]. split.
-  - unfold trace_sim_b, run, final_state. apply list_eqb_rev. exact Ht.
+  - unfold run, final_state. apply trace_strong_rev. exact Ht.
   - exact Hr.
+Qed.
+
+Theorem simp_preserves_run p args :
+  block_fields_nodup (p_body p) = true -> chk_prog T orc p args = [] ->
+  trace_sim_b (run orc p args) (run orc (simp_prog sel T p) args) = true
+  /\ (forall a f, regs (final_state orc (simp_prog sel T p) args) a f = regs (final_state orc p args) a f).
+Proof.
+  intros Hnd Hc. destruct (simp_preserves_strong p args Hnd Hc) as [H1 H2]. split; [|exact H2].
+  apply trace_strong_sim. exact H1.
 Qed.
 
 (* C01 for the field-dropping rule: every certified program, all oracles / inputs / trip counts *)
@@ -266,3 +330,198 @@ Proof.
 Qed.
 
 End Simp.
+
+(* ---- the certificate survives the rewrite: sequences of applications -----------------------
+   [simp_wf]: if T is certified for p, it is certified for [simp_prog sel T p] — the rewritten
+   setups still satisfy  T out <= update(T in, remaining params)  because a dropped pair is in
+   T in.  Hence the theorem above applies again to the result, for any further selection: any
+   finite sequence of SimplifyRedundantSetupCalls applications (against the table the pass
+   computed) preserves the trace. *)
+Lemma st_lookup_map_set f v s g :
+  st_lookup g (map (fun gv : field * val => if Nat.eqb (fst gv) f then (f, v) else gv) s)
+  = match st_lookup g s with
+    | Some w => if Nat.eqb g f then Some v else Some w
+    | None => None
+    end.
+Proof.
+  induction s as [|[h w] s IH]; [reflexivity|]. cbn [map fst st_lookup].
+  destruct (Nat.eqb h f) eqn:Ehf.
+  - apply Nat.eqb_eq in Ehf. subst h. cbn [st_lookup]. destruct (Nat.eqb f g) eqn:Efg.
+    + apply Nat.eqb_eq in Efg. subst g. rewrite Nat.eqb_refl. reflexivity.
+    + rewrite IH. reflexivity.
+  - cbn [st_lookup]. destruct (Nat.eqb h g) eqn:Ehg.
+    + apply Nat.eqb_eq in Ehg. subst g. rewrite Ehf. reflexivity.
+    + exact IH.
+Qed.
+
+Lemma st_lookup_app s1 s2 g :
+  st_lookup g (s1 ++ s2) = match st_lookup g s1 with Some w => Some w | None => st_lookup g s2 end.
+Proof.
+  induction s1 as [|[h w] s1 IH]; [reflexivity|]. cbn [app st_lookup]. destruct (Nat.eqb h g); [reflexivity|exact IH].
+Qed.
+
+Lemma st_lookup_set f v s g :
+  st_lookup g (st_set f v s) = if Nat.eqb g f then Some v else st_lookup g s.
+Proof.
+  unfold st_set, st_has. destruct (st_lookup f s) as [w|] eqn:E.
+  - rewrite st_lookup_map_set. destruct (Nat.eqb g f) eqn:Eg.
+    + apply Nat.eqb_eq in Eg. subst g. rewrite E. reflexivity.
+    + destruct (st_lookup g s); reflexivity.
+  - rewrite st_lookup_app. cbn [st_lookup]. destruct (Nat.eqb g f) eqn:Eg.
+    + apply Nat.eqb_eq in Eg. subst g. rewrite E. rewrite Nat.eqb_refl. reflexivity.
+    + rewrite Nat.eqb_sym, Eg. destruct (st_lookup g s); reflexivity.
+Qed.
+
+Lemma st_lookup_update fs : forall s g,
+  st_lookup g (st_update s fs) = match last_binding g fs with Some v => Some v | None => st_lookup g s end.
+Proof.
+  induction fs as [|[f v] fs IH]; intros s g; [reflexivity|].
+  cbn [st_update]. rewrite IH, last_binding_cons, st_lookup_set.
+  destruct (last_binding g fs); [reflexivity|]. rewrite (Nat.eqb_sym f g). destruct (Nat.eqb g f); reflexivity.
+Qed.
+
+Lemma st_sub_simplify (to ti : astate) fs :
+  nodup_nat (map fst fs) = true ->
+  st_sub to (st_update ti fs) = true -> st_sub to (st_update ti (simplify_fields ti fs)) = true.
+Proof.
+  unfold st_sub. rewrite !forallb_forall. intros Hnd H [f v] Hin. specialize (H _ Hin). cbn [fst snd] in *.
+  rewrite st_lookup_update in *. unfold simplify_fields. rewrite last_binding_filter by exact Hnd.
+  destruct (last_binding f fs) as [w|] eqn:El; [|exact H].
+  cbn [fst snd]. apply Nat.eqb_eq in H. subst w.
+  destruct (st_lookup f ti) as [u|] eqn:Eu; cbn [negb]; [|apply Nat.eqb_refl].
+  destruct (Nat.eqb u v) eqn:Euv; cbn [negb]; [|apply Nat.eqb_refl].
+  exact Euv.
+Qed.
+
+Lemma nodup_filter (q : field * val -> bool) fs :
+  nodup_nat (map fst fs) = true -> nodup_nat (map fst (filter q fs)) = true.
+Proof.
+  induction fs as [|[g w] fs IH]; intros H; [reflexivity|].
+  simpl in H. apply andb_true_iff in H. destruct H as [Hg Hn]. cbn [filter].
+  destruct (q (g, w)); [|exact (IH Hn)].
+  cbn [map fst nodup_nat]. rewrite (IH Hn), andb_true_r.
+  apply Bool.negb_true_iff. apply Bool.negb_true_iff in Hg. apply mem_nat_false. apply mem_nat_false in Hg.
+  intros Hin. apply Hg. apply in_map_iff in Hin. destruct Hin as [[g' w'] [E Hin]]. apply filter_In in Hin.
+  apply in_map_iff. exists (g', w'). split; [exact E|exact (proj1 Hin)].
+Qed.
+
+Section SimpWf.
+Variable T : val -> astate.
+Variable sel : val -> bool.
+
+Lemma simp_accs_effects :
+  forall s, stmt_accs (simp_stmt sel T s) = stmt_accs s /\ stmt_has_effects (simp_stmt sel T s) = stmt_has_effects s.
+Proof.
+  apply (stmt_ind2 (fun s => stmt_accs (simp_stmt sel T s) = stmt_accs s
+                             /\ stmt_has_effects (simp_stmt sel T s) = stmt_has_effects s)
+                   (fun b => block_accs (simp_block sel T b) = block_accs b
+                             /\ existsb stmt_has_effects (simp_block sel T b) = existsb stmt_has_effects b));
+    try (intros; split; reflexivity).
+  - intros a o i fs. destruct i as [i|]; [|split; reflexivity]. cbn [simp_stmt]. destruct (sel o); split; reflexivity.
+  - intros iv lb ub sp its rs body ys [IH1 IH2]. rewrite simp_stmt_for. split.
+    + change (block_accs (simp_block sel T body) = block_accs body). exact IH1.
+    + change (existsb stmt_has_effects (simp_block sel T body) = existsb stmt_has_effects body). exact IH2.
+  - intros c rs th thy el ely [IHt1 IHt2] [IHe1 IHe2]. rewrite simp_stmt_if. split.
+    + change (block_accs (simp_block sel T th) ++ block_accs (simp_block sel T el) = block_accs th ++ block_accs el).
+      rewrite IHt1, IHe1. reflexivity.
+    + change (existsb stmt_has_effects (simp_block sel T th) || existsb stmt_has_effects (simp_block sel T el)
+              = existsb stmt_has_effects th || existsb stmt_has_effects el).
+      rewrite IHt2, IHe2. reflexivity.
+  - intros s b [Hs1 Hs2] [Hb1 Hb2]. split.
+    + cbn [simp_block]. unfold block_accs in *. cbn [flat_map]. rewrite Hs1, Hb1. reflexivity.
+    + cbn [simp_block existsb]. rewrite Hs2, Hb2. reflexivity.
+Qed.
+
+Lemma simp_block_accs b : block_accs (simp_block sel T b) = block_accs b.
+Proof.
+  induction b as [|s b IH]; [reflexivity|]. cbn [simp_block]. unfold block_accs in *. cbn [flat_map].
+  rewrite (proj1 (simp_accs_effects s)), IH. reflexivity.
+Qed.
+
+Lemma simp_block_effects b : existsb stmt_has_effects (simp_block sel T b) = existsb stmt_has_effects b.
+Proof.
+  induction b as [|s b IH]; [reflexivity|]. cbn [simp_block existsb].
+  rewrite (proj2 (simp_accs_effects s)), IH. reflexivity.
+Qed.
+
+Definition Ws (s : stmt) : Prop := forall c c', stmt_fields_nodup s = true ->
+  wf_stmt T c s = Some c' -> wf_stmt T c (simp_stmt sel T s) = Some c'.
+Definition Wb (b : block) : Prop := forall c c', block_fields_nodup b = true ->
+  wf_block T c b = Some c' -> wf_block T c (simp_block sel T b) = Some c'.
+
+Lemma simp_wf_block : forall b, Wb b.
+Proof.
+  apply (block_ind2 Ws Wb); try (intros; intros c c' _ H; exact H).
+  - intros a o i fs c c' Hnd H. destruct i as [i|]; [|exact H]. cbn [simp_stmt]. destruct (sel o); [|exact H].
+    simpl in Hnd. simpl in H |- *.
+    destruct (optval_is (cur_get a c) i && st_sub (T o) (st_update (T i) fs)) eqn:Hc; [|discriminate].
+    apply andb_true_iff in Hc. destruct Hc as [Hl Hs].
+    rewrite Hl. rewrite (st_sub_simplify _ _ _ Hnd Hs). exact H.
+  - intros iv lb ub sp its rs body ys IHb c c' Hnd H. rewrite stmt_fields_nodup_for in Hnd.
+    rewrite simp_stmt_for. rewrite wf_stmt_for in H |- *. cbv zeta in H |- *.
+    rewrite simp_block_accs, simp_block_effects.
+    destruct (facts_avoid T c (iv :: map it_arg its ++ rs) && nodup_nat (map si_acc (state_iters its ys rs)) &&
+              forallb (fun x => optval_is (cur_get (si_acc x) c) (si_init x)
+                           && st_sub (T (si_arg x)) (T (si_init x)) && st_sub (T (si_arg x)) (T (si_yield x))
+                           && st_sub (T (si_res x)) (T (si_init x)) && st_sub (T (si_res x)) (T (si_yield x)))
+                      (state_iters its ys rs)); [|discriminate].
+    match type of H with context [wf_block T ?ch body] => destruct (wf_block T ch body) as [c_e|] eqn:Hb; [|discriminate];
+      rewrite (IHb ch c_e Hnd Hb) end.
+    exact H.
+  - intros cv rs th thy el ely IHt IHe c c' Hnd H. rewrite stmt_fields_nodup_if in Hnd.
+    apply andb_true_iff in Hnd. destruct Hnd as [Hnt Hne].
+    rewrite simp_stmt_if. rewrite wf_stmt_if in H |- *. cbv zeta in H |- *.
+    destruct (wf_block T c th) as [c_t|] eqn:Ht; [|discriminate].
+    destruct (wf_block T c el) as [c_e|] eqn:He; [|discriminate].
+    rewrite (IHt c c_t Hnt Ht), (IHe c c_e Hne He). exact H.
+  - intros s b Hs Hb c c' Hnd H. simpl in Hnd. apply andb_true_iff in Hnd. destruct Hnd as [H1 H2].
+    simpl in H. destruct (wf_stmt T c s) as [c1|] eqn:E; [|discriminate].
+    cbn [simp_block wf_block]. rewrite (Hs c c1 H1 E). exact (Hb c1 c' H2 H).
+Qed.
+
+Lemma simp_fields_nodup_block : forall b, block_fields_nodup b = true -> block_fields_nodup (simp_block sel T b) = true.
+Proof.
+  apply (block_ind2 (fun s => stmt_fields_nodup s = true -> stmt_fields_nodup (simp_stmt sel T s) = true)
+                    (fun b => block_fields_nodup b = true -> block_fields_nodup (simp_block sel T b) = true));
+    try (intros; assumption).
+  - intros a o i fs H. destruct i as [i|]; [|exact H]. cbn [simp_stmt]. destruct (sel o); [|exact H].
+    simpl in H |- *. unfold simplify_fields. apply nodup_filter. exact H.
+  - intros iv lb ub sp its rs body ys IH H. rewrite simp_stmt_for. rewrite stmt_fields_nodup_for in *. exact (IH H).
+  - intros c rs th thy el ely IHt IHe H. rewrite simp_stmt_if. rewrite stmt_fields_nodup_if in *.
+    apply andb_true_iff in H. destruct H as [H1 H2]. rewrite (IHt H1), (IHe H2). reflexivity.
+  - intros s b Hs Hb H. simpl in H. apply andb_true_iff in H. destruct H as [H1 H2].
+    cbn [simp_block block_fields_nodup]. rewrite (Hs H1), (Hb H2). reflexivity.
+Qed.
+
+Theorem simp_wf p :
+  wf_prog T p = true -> block_fields_nodup (p_body p) = true ->
+  wf_prog T (simp_prog sel T p) = true /\ block_fields_nodup (p_body (simp_prog sel T p)) = true.
+Proof.
+  unfold wf_prog. intros H Hnd. split; [|exact (simp_fields_nodup_block _ Hnd)].
+  destruct (wf_block T [] (p_body p)) as [c'|] eqn:E; [|discriminate].
+  cbn [simp_prog p_body]. rewrite (simp_wf_block _ [] c' Hnd E). reflexivity.
+Qed.
+End SimpWf.
+
+(* any finite sequence of selections *)
+Fixpoint simp_seq (T : val -> astate) (sels : list (val -> bool)) (p : prog) : prog :=
+  match sels with
+  | [] => p
+  | sel :: sels' => simp_seq T sels' (simp_prog sel T p)
+  end.
+
+Lemma simp_seq_strong T orc sels : forall p args,
+  wf_prog T p = true -> block_fields_nodup (p_body p) = true ->
+  trace_strong (run orc p args) (run orc (simp_seq T sels p) args).
+Proof.
+  induction sels as [|sel sels IH]; intros p args Hwf Hnd; [apply trace_strong_refl|].
+  cbn [simp_seq]. destruct (simp_wf T sel p Hwf Hnd) as [Hwf' Hnd'].
+  eapply trace_strong_trans; [|exact (IH _ args Hwf' Hnd')].
+  apply simp_preserves_strong; [exact Hnd|]. apply wf_sound. exact Hwf.
+Qed.
+
+(* any finite sequence of applications (each with its own selection of setups) *)
+Theorem simp_seq_preserves T orc sels p args :
+  wf_prog T p = true -> block_fields_nodup (p_body p) = true ->
+  trace_sim_b (run orc p args) (run orc (simp_seq T sels p) args) = true.
+Proof. intros Hwf Hnd. apply trace_strong_sim. apply simp_seq_strong; assumption. Qed.
